@@ -181,3 +181,139 @@ def check_ywd(R, tu, rule):
                   "%dy %dw %dd, but it takes %dy %dw %dd" % (len(bad), n, i1[0], i1[1], i1[2], i2[0], i2[1], i2[2], got[0], got[1], got[2],
                                                              exp[0], exp[1], exp[2]))
     return n
+
+
+# ---------------------------------------------------------------------------------------------------------------------------
+# far apart and around century years: concrete points, nothing replaced by a model (the helpers are folded with the routines)
+def _exp_yd(D1, D2):
+    Y = D2.year - D1.year
+    anchor = D1.replace(year=D1.year + Y)
+    if anchor > D2:
+        Y -= 1
+        anchor = D1.replace(year=D1.year + Y)
+    return (Y, (D2 - anchor).days)
+
+
+def _exp_ymd(D1, D2):
+    T = (D2.year - D1.year) * 12 + (D2.month - D1.month)
+    if _addm(D1, T) > D2:
+        T -= 1
+    return (T // 12, T % 12, (D2 - _addm(D1, T)).days)
+
+
+def _exp_ywd(D1, D2):
+    (y1, c1, w1), (y2, c2, w2) = D1.isocalendar(), D2.isocalendar()
+    Y = y2 - y1
+    while Y > 0 and (_isowk(y1 + Y) < c1 or datetime.date.fromisocalendar(y1 + Y, c1, w1) > D2):
+        Y -= 1
+    rem = (D2 - datetime.date.fromisocalendar(y1 + Y, c1, w1)).days
+    return (Y, rem // 7, rem % 7)
+
+
+FAR_Y1 = (1896, 1999, 2096, 2099, 2100)
+FAR_DY = (0, 1, 3, 4, 5, 8, 104, 400, 1000)
+HANG = {1: 0, 2: -1, 3: -2, 4: -3, 5: 3, 6: 2, 7: 1}
+
+
+def check_far(R, tu, rule):
+    fns = {k: tu.func(k) for k in ("__yd_diff", "__ymd_diff", "__ywd_diff")}
+    for k, f in fns.items():
+        if f is None:
+            raise AnalysisBroken("%s vanished" % k)
+    tabs = {}
+
+    def call(name, *args):
+        fo = fold.Folder(fns[name], calls={}, inline=True, max_steps=400000)
+        fo._tabs = tabs
+        return fo.run([dict(a) for a in args])
+    n = 0
+    bad = {k: [] for k in fns}
+    try:
+        for y1 in FAR_Y1:
+            starts = [datetime.date(y1, m, d) for m in (1, 2, 3, 7, 12) for d in (1, 28)]
+            for dy in FAR_DY:
+                y2 = y1 + dy
+                ends = [datetime.date(y2, m, d) for m in (1, 2, 3, 7, 12) for d in (1, 28, _mdays(y2, m))]
+                for D1 in starts:
+                    for D2 in ends:
+                        if D2 < D1:
+                            continue
+                        n += 3
+                        r = call("__yd_diff", {"y": D1.year, "d": D1.timetuple().tm_yday}, {"y": D2.year, "d": D2.timetuple().tm_yday})
+                        got = (r.get("yd.y"), r.get("yd.d"))
+                        if got != _exp_yd(D1, D2):
+                            bad["__yd_diff"].append((D1, D2, got, _exp_yd(D1, D2)))
+                        r = call("__ymd_diff", {"y": D1.year, "m": D1.month, "d": D1.day}, {"y": D2.year, "m": D2.month, "d": D2.day})
+                        got = (r.get("ymd.y"), r.get("ymd.m"), r.get("ymd.d"))
+                        if got != _exp_ymd(D1, D2):
+                            bad["__ymd_diff"].append((D1, D2, got, _exp_ymd(D1, D2)))
+                        i1, i2 = D1.isocalendar(), D2.isocalendar()
+                        if i1[1] == 53:
+                            continue
+                        r = call("__ywd_diff", {"y": i1[0], "c": i1[1], "w": i1[2], "hang": HANG[datetime.date(i1[0], 1, 1).isoweekday()]},
+                                 {"y": i2[0], "c": i2[1], "w": i2[2], "hang": HANG[datetime.date(i2[0], 1, 1).isoweekday()]})
+                        got = (r.get("ywd.y"), r.get("ywd.c"), r.get("ywd.w"))
+                        if got != _exp_ywd(D1, D2):
+                            bad["__ywd_diff"].append((D1, D2, got, _exp_ywd(D1, D2)))
+    except NotConst as e:
+        raise AnalysisBroken("%s: a difference routine left the decodable fragment (%s)" % (rule, e))
+    for k in fns:
+        if bad[k]:
+            D1, D2, got, exp = bad[k][0]
+            R.finding(rule, fns[k], "%s, operands far apart / around century years" % k, "%d pairs differ from the definition; first: %s .. %s "
+                      "gives %s, it takes %s" % (len(bad[k]), D1, D2, got, exp))
+        else:
+            R.ob(rule, "%s: pairs up to 1000 years apart from the years %s (first and 28th of January, February, March, July, December against first, 28th and last): the "
+                 "components that lead from the earlier to the later date" % (k, list(FAR_Y1)), True)
+    return n
+
+
+class _Rec:
+    """stands in for the report inside a forked worker: calls are replayed on the real report by the parent"""
+    def __init__(self):
+        self.calls = []
+
+    def saw(self, fn):
+        self.calls.append(("saw", fn.name))
+
+    def ob(self, rule, site, ok=True, sample=None):
+        self.calls.append(("ob", rule, site, ok, sample))
+
+    def finding(self, rule, fn, site, msg, **kw):
+        self.calls.append(("finding", rule, fn.name, site, msg))
+
+
+_FG = {}
+
+
+def _forked(i):
+    rec = _Rec()
+    try:
+        n = _FG["jobs"][i](rec, _FG["tu"], _FG["rule"])
+        return (n, rec.calls, None)
+    except AnalysisBroken as e:
+        return (0, rec.calls, str(e))
+
+
+def check_all(R, tu, rule):
+    """the three decoders and the far pass side by side (forked; the findings come back and are entered here)"""
+    import multiprocessing as mp
+    jobs = [check_yd, check_ymd, check_ywd, check_far]
+    _FG.update(jobs=jobs, tu=tu, rule=rule)
+    with mp.get_context("fork").Pool(len(jobs)) as pool:
+        parts = pool.map(_forked, range(len(jobs)))
+    total = 0
+    broken = None
+    for n, calls, err in parts:
+        total += n
+        for c in calls:
+            if c[0] == "saw":
+                R.saw(tu.func(c[1]))
+            elif c[0] == "ob":
+                R.ob(c[1], c[2], c[3], sample=c[4])
+            else:
+                R.finding(c[1], tu.func(c[2]), c[3], c[4])
+        broken = broken or err
+    if broken:
+        raise AnalysisBroken(broken)
+    return total
